@@ -23,7 +23,7 @@ import (
 func init() {
 	ev.Register(&ev.Spec{
 		ID: "C16", Level: "exploration",
-		Rule:            "G in {2,4,16,64} goroutines drive real clients over K in {1,2,4,8} connections (net.Pipe and AF_UNIX socket pairs) to one server over memfs with seeded scheduling perturbation at every backend enter/exit, one request outstanding per fid, under the Go race detector (both tiers): (i) disjoint subtrees - each goroutine runs a seeded script (create/write/read/mkdir/walk/clone/readdir/getattr/setattr/renameat same and cross directory/rename/unlinkat/remove/clunk) inside /gN and its step-by-step results (errnos, data, names, sizes, object identities canonicalised by first appearance) must equal those of the same script run alone on a fresh server; (ii) shared directory - cross- and same-directory renames, unlinks of entries other clients hold, clones, creates on few names: completion and race-freedom, with the C07 overlap monitor on. Every request must be answered: a wait that ends with the process parked is a deadlock (witness: dump), one that ends with library goroutines spinning a livelock. Non-trivial: >= 2 requests were inside the backend simultaneously (measured); distinct by workload shape and enter-order signature.",
+		Rule:            "G in {2,4,16,64} goroutines drive real clients over K in {1,2,4,8} connections (net.Pipe and AF_UNIX socket pairs) to one server over memfs with seeded scheduling perturbation at every backend enter/exit, one request outstanding per fid, under the Go race detector (both tiers): (i) disjoint subtrees - each goroutine runs a seeded script (create/write/read/mkdir/walk/clone/readdir/getattr/setattr/renameat same and cross directory/rename/unlinkat/remove/clunk) inside /gN and its step-by-step results (errnos, data, names, sizes, object identities canonicalised by first appearance) must equal those of the same script run alone on a fresh server; (ii) shared directory - cross- and same-directory renames, unlinks of entries other clients hold, clones, creates on few names: completion and race-freedom, with the C07 overlap monitor on. (iii) renamed-vs-drop: the Renamed notification of a fid 1-4 levels below a renamed directory is parked by a gate while that fid's table reference is dropped by Tclunk / Tremove / a walk onto its number / its connection ending (with and without fids on the directories in between): everything is answered, the File is closed once and after Renamed. Every request must be answered: a wait that ends with the process parked is a deadlock (witness: dump), one that ends with library goroutines spinning a livelock. Non-trivial: >= 2 requests were inside the backend simultaneously (measured); distinct by workload shape and enter-order signature.",
 		Assume:          []string{"race reports with a frame under /repo are violations; reports entirely in harness code break the check", "memfs is linearizable by its own mutex"},
 		Shards:          shards(8, 16),
 		Race:            raceIn("quick", "thorough"),
